@@ -752,13 +752,16 @@ func c10run(r *mon.R, s *c10scn, scnIdx int) {
 			}
 		}
 		var hist []string
+		// an observer that was handed a deal on other commitments (altered / another polynomial) follows a different
+		// session: events are still delivered to it (nothing may panic) but the shared-deal ledger does not apply to it
+		judge := commitClass[obs] == "dealer"
 		check := func(stage string) {
 			var cert bool
 			if !r.Guard("C10/"+v.name+"/DealCertified", det(map[string]any{"observer": obs, "history": hist}), func() { cert = vv.certified() }) {
 				return
 			}
 			r.Eval("certified-check", fmt.Sprintf("%s|%d|%d|%d|%d|%s", v.name, scnIdx, obs, len(hist), led.count(), stage), nontriv)
-			if cert {
+			if cert && judge {
 				led.certSeen = true
 				if led.count() < t {
 					viol("DealCertified/certified-with-fewer-than-t-approvals-or-correct-justifications", fmt.Sprintf("observer reports the deal certified although only %d < t=%d verifiers approved or had their complaint correctly justified", led.count(), t), map[string]any{"observer": obs, "history": hist, "ledger": led.status})
@@ -782,7 +785,7 @@ func c10run(r *mon.R, s *c10scn, scnIdx int) {
 				hist = append(hist, fmt.Sprintf("resp[%d %s approved=%v]->%v", ev.idx, ev.desc, ev.approved, e != nil))
 				r.Eval("response/"+ev.desc, fmt.Sprintf("%s|%d|%d|%d", v.name, scnIdx, obs, len(hist)), nontriv)
 				_, already := led.status[ev.idx]
-				if e == nil {
+				if e == nil && judge {
 					if ev.desc == "own" && codeResp[obs] != nil && int(ev.idx) < n && commitClass[obs] == "dealer" && commitClass[ev.idx] != "dealer" {
 						viol("ProcessResponse/approval-for-other-commitments-counted", "an observer holding the dealer's published commitments counted the response of a verifier whose deal carries other commitments (the response refers to another deal)", map[string]any{"observer": obs, "from": ev.idx, "observer_commitments": commitClass[obs], "sender_commitments": commitClass[ev.idx], "history": hist})
 					}
@@ -809,7 +812,7 @@ func c10run(r *mon.R, s *c10scn, scnIdx int) {
 				st := led.status[ev.idx]
 				hist = append(hist, fmt.Sprintf("just[%d %s]->%v (ledger status before: %q)", ev.idx, ev.desc, e != nil, st))
 				r.Eval("justification/"+ev.desc, fmt.Sprintf("%s|%d|%d|%d", v.name, scnIdx, obs, len(hist)), nontriv)
-				if !led.hasDeal {
+				if !led.hasDeal || !judge {
 					return
 				}
 				if st == "complaint" {
